@@ -137,7 +137,9 @@ func TestC11(t *testing.T) {
 			var l ipld.Link
 			var sz uint64
 			var err error
-			withWidth(fc.Width, func() { l, sz, err = builder.BuildUnixFSFile(bytes.NewReader(content), fc.Chunker, st.LinkSystem(false)) })
+			withWidth(fc.Width, func() {
+				l, sz, err = builder.BuildUnixFSFile(bytes.NewReader(content), fc.Chunker, st.LinkSystem(false))
+			})
 			if err != nil {
 				c.Violation("C11|build-error", "%v", err)
 				return
